@@ -114,7 +114,11 @@ func buildNative(eng *Engine, work string, pkg string, entries []string) *native
 	if err != nil {
 		return &nativeBuild{err: fmt.Sprintf("native build failed: %v\n%s", err, tail(string(out), 2000))}
 	}
-	return &nativeBuild{bin: bin, dir: filepath.Join(repoDir, rel)}
+	dir := filepath.Join(repoDir, rel)
+	if fi, err := os.Stat(dir); err != nil || !fi.IsDir() {
+		dir = repoDir // virtual (overlay-only) package
+	}
+	return &nativeBuild{bin: bin, dir: dir}
 }
 
 func tail(s string, n int) string {
